@@ -440,6 +440,45 @@ struct Probe
     if (! ok)
       report (props, "inv.contiguity", w + ": element addresses / iterator flavours disagree with data()+i");
 
+    // iterator algebra: random-access operations of every iterator flavour agree with indices
+    {
+      typedef typename SV::iterator It;
+      typedef typename SV::const_iterator CIt;
+      typedef typename SV::difference_type D;
+      bool alg = true;
+      const D n = static_cast<D> (s < 8 ? s : 8);
+      for (D i = 0; i <= n && alg; ++i)
+      {
+        It a = v.begin () + i;
+        CIt ca = c.cbegin () + i;
+        It b = v.begin (); b += i;
+        CIt cb = i + c.begin ();
+        It e = v.end () - (static_cast<D> (s) - i);
+        if (a != b || ca != cb || a != e || (a - v.begin ()) != i || (ca - c.begin ()) != i) alg = false;
+        if (CIt (a) != ca || ! (ca == a)) alg = false;
+        if (i < static_cast<D> (s))
+        {
+          if (&*a != d + i || &*ca != d + i || &v.begin ()[i] != d + i || &c.begin ()[i] != d + i || a.operator-> () != d + i) alg = false;
+          It nx = a; ++nx; It pn = a; pn++;
+          if (nx != pn || nx - a != 1 || ! (a < nx) || ! (nx > a) || ! (a <= nx) || ! (nx >= a) || (nx < a) || (a > nx)) alg = false;
+          --nx; pn--;
+          if (nx != a || pn != a) alg = false;
+          It m = nx; m -= 0; if (m != a) alg = false;
+        }
+        for (D j = 0; j <= n; ++j)
+        {
+          CIt cj = c.cbegin () + j;
+          if ((ca < cj) != (i < j) || (ca == cj) != (i == j) || (ca >= cj) != (i >= j) || (cj - ca) != (j - i)) alg = false;
+        }
+      }
+      if (s != 0)
+      {
+        if (&*v.rbegin () != d + (s - 1) || &*c.crbegin () != d + (s - 1) || &*(v.rend () - 1) != d) alg = false;
+      }
+      if (! alg)
+        report (faulted ? "C02,C18,C06" : "C02,C18", "inv.iterator-algebra", w + ": random-access iterator operations disagree with element indices");
+    }
+
     // non-member accessors (C16 clause, checked on every state)
     bool nm = true;
     if (gch::begin (v) != v.begin () || gch::end (v) != v.end ()) nm = false;
